@@ -30,6 +30,8 @@ type RevProfile struct {
 	RacePanic    bool
 	CachePct     int
 	LatMax       int // upper bound of latencies in ms (0 = 3000)
+	Hostile       bool // C09: structure-aware deletions and odd shapes on top
+	TimeInvariant bool // C17: no time-dependent behaviours so that only the schedule varies
 }
 
 func defaultRevProfile(name string) *RevProfile {
@@ -56,6 +58,7 @@ type World struct {
 	STFrac      bool
 	ST          time.Time
 	SharedHost  bool
+	Reps        int // concurrent callers validating this same world (ValidateContext only)
 	// materialised
 	OtherCA    *Cert
 	Unrelated  *Key
@@ -80,6 +83,7 @@ type RevScenario struct {
 	CancelAfter time.Duration
 	PanicAt     string // "" | "transport" | "fetcher" | "cache"
 	PanicWorld  int
+	PanicRep    int
 	PanicCert   int
 	// enabled swarm masks
 	netMask uint32
@@ -105,6 +109,9 @@ func genLatency(t *Tape, latMax int) time.Duration {
 func (p *RevProfile) genFault(t *Tape, sc *RevScenario, kind string) Fault {
 	// candidate network faults
 	cands := []int{FConnErr, FStall, FStatus, FRedirect, FEmpty, FTruncate, FBodyErr, FBodyStall, FGarbage}
+	if p.TimeInvariant {
+		cands = []int{FConnErr, FStatus, FRedirect, FEmpty, FTruncate, FBodyErr, FGarbage}
+	}
 	var en []int
 	for _, c := range cands {
 		if sc.netMask&(1<<uint(c)) != 0 {
@@ -175,6 +182,9 @@ func (p *RevProfile) genOCSPContent(t *Tape, sc *RevScenario, truth int, deviate
 		c.SerialKind = 1 + t.Choose(nSerialKinds-1)
 	case 3:
 		c.NextKind = 1 + t.Choose(nNextKinds-1)
+		if p.TimeInvariant {
+			c.NextKind = []int{NuExpired, NuAbsent}[c.NextKind%2]
+		}
 	case 4:
 		c.ErrStatus = []int{1, 2, 3, 5, 6}[t.Choose(5)]
 	case 5:
@@ -236,6 +246,16 @@ func (p *RevProfile) genCRLPlan(t *Tape, sc *RevScenario, truth int, deviate boo
 		c.IDPCritical = t.Bool(15)
 	}
 	c.UnknownNon = t.Bool(10)
+	if p.Hostile {
+		// structure-aware deletions and malformed fields (C09)
+		c.NumberAbs = t.Bool(12)
+		if t.Bool(10) {
+			c.Entries = append(c.Entries, EntryPlan{Match: t.Bool(70), Reason: []int{-1, 7, 11, 255, 6}[t.Choose(5)], RevIdx: t.Choose(3), InvKind: InvMalformed, Crit: t.Bool(20)})
+		}
+		if isDelta && t.Bool(10) {
+			c.IndKind = 1 + t.Choose(2)
+		}
+	}
 	if !deviate {
 		return c
 	}
@@ -245,6 +265,9 @@ func (p *RevProfile) genCRLPlan(t *Tape, sc *RevScenario, truth int, deviate boo
 		c.SignerKind = []string{"other_ca", "unrelated", "sigflip"}[t.Choose(3)]
 	case 2:
 		c.NextKind = 1 + t.Choose(nNextKinds-1)
+		if p.TimeInvariant {
+			c.NextKind = []int{NuExpired, NuAbsent}[c.NextKind%2]
+		}
 	case 3:
 		c.UnknownCrit = true
 	case 4:
@@ -295,8 +318,17 @@ func GenRevScenario(t *Tape, p *RevProfile) *RevScenario {
 			nWorlds = p.MaxCallers
 		}
 	}
+	total := 0
 	for w := 0; w < nWorlds; w++ {
-		sc.Worlds = append(sc.Worlds, p.genWorld(t, sc, w))
+		wd := p.genWorld(t, sc, w)
+		if p.MaxCallers > 1 && total+wd.reps() > p.MaxCallers {
+			wd.Reps = 1
+		}
+		total += wd.reps()
+		sc.Worlds = append(sc.Worlds, wd)
+		if p.MaxCallers > 1 && total >= p.MaxCallers {
+			break
+		}
 	}
 	if p.CancelPct > 0 && t.Bool(p.CancelPct) {
 		sc.Cancel = 1 + t.Weighted(15, 70, 15)
@@ -306,6 +338,7 @@ func GenRevScenario(t *Tape, p *RevProfile) *RevScenario {
 		sc.PanicAt = []string{"transport", "fetcher", "cache"}[t.Weighted(50, 30, 20)]
 		sc.PanicWorld = t.Choose(len(sc.Worlds))
 		w := sc.Worlds[sc.PanicWorld]
+		sc.PanicRep = t.Choose(w.reps())
 		if len(w.Certs) > 1 {
 			sc.PanicCert = t.Choose(len(w.Certs) - 1)
 		}
@@ -336,6 +369,12 @@ func (p *RevProfile) genWorld(t *Tape, sc *RevScenario, id int) *World {
 		w.ST = stBase
 		if w.STFrac {
 			w.ST = stBase.Add(500 * time.Millisecond)
+		}
+	}
+	if p.MaxCallers > 1 && w.Entry == EValidateContext {
+		w.Reps = 1 + t.Weighted(55, 20, 10, 8, 7)
+		if w.Reps == 5 {
+			w.Reps = p.MaxCallers / 2
 		}
 	}
 	if p.InvalidChain > 0 && t.Bool(p.InvalidChain) {
@@ -414,12 +453,17 @@ func (p *RevProfile) genWorld(t *Tape, sc *RevScenario, id int) *World {
 			} else if faulty && sc.Config >= 2 && t.Bool(8) {
 				// base advertising odd freshest shapes without usable location
 				s.FrShape = []int{FrEmptySeq, FrNonURI, FrNoDPName}[t.Choose(3)]
+			} else if p.Hostile && t.Bool(15) {
+				s.FrShape = []int{FrMalformed, FrRelativeName, FrEmptySeq, FrNonURI, FrNoDPName}[t.Choose(5)]
 			}
 			if sc.Fetcher == FetchStub {
 				s.StubErr = faulty && t.Bool(p.PSrcFault/2)
 			}
 			if sc.Fetcher == FetchRealCache {
 				s.CacheSeed = t.Weighted(55, 20, 10, 10, 5)
+				if p.TimeInvariant && (s.CacheSeed == 2 || s.CacheSeed == 4) {
+					s.CacheSeed = 1
+				}
 				if faulty {
 					s.CacheGetEr = t.Bool(10)
 					s.CacheSetEr = t.Bool(10)
